@@ -2,7 +2,7 @@
 from pathlib import Path
 
 HERE = Path(__file__).resolve().parent
-ALL = ["tri", "floats", "strings", "containers", "account", "colors", "queue_", "printer", "lastcall"]
+ALL = ["tri", "floats", "strings", "containers", "account", "colors", "queue_", "printer", "lastcall", "safefloats"]
 RANDOM_USING = ["rng_user"]
 
 
